@@ -56,15 +56,24 @@ def confirm(prop, patch, script):
         rc, o = sh('%s -m compileall -q pcbasic' % PY, cwd=wt)
         out['compiles'] = rc == 0
         out['demo_patched'] = demo(wt, script)
-        junit = wt + '/junit.xml'
-        rc, o = sh('%s -m pytest -q -p no:cacheprovider --timeout=900 --continue-on-collection-errors --junitxml=%s' % (PY, junit), cwd=wt)
         base = set(json.load(open('/root/.vp/BASELINE.json'))['stable_pass'])
-        ok = set()
-        for tc in ET.parse(junit).iter('testcase'):
-            if not [c for c in tc if c.tag in ('failure', 'error', 'skipped')]:
-                ok.add('%s::%s' % (tc.get('classname'), tc.get('name')))
-        out['tests_missing'] = sorted(base - ok)
-        out['tests_tail'] = o.strip().splitlines()[-1]
+        missing = None
+        for attempt in range(3):
+            # tests/unit/test_dos.py::DosTest::test_interactive_shell is timing-sensitive under load: a test
+            # counts as broken by the patch only if it fails in every one of up to three runs
+            junit = wt + '/junit.xml'
+            rc, o = sh('%s -m pytest -q -p no:cacheprovider --timeout=900 --continue-on-collection-errors --junitxml=%s' % (PY, junit), cwd=wt)
+            ok = set()
+            for tc in ET.parse(junit).iter('testcase'):
+                if not [c for c in tc if c.tag in ('failure', 'error', 'skipped')]:
+                    ok.add('%s::%s' % (tc.get('classname'), tc.get('name')))
+            m = base - ok
+            missing = m if missing is None else (missing & m)
+            out['tests_tail'] = o.strip().splitlines()[-1]
+            if not missing:
+                break
+        out['tests_missing'] = sorted(missing)
+        out['test_runs'] = attempt + 1
         out['confirmed'] = (out['demo_pristine'].endswith('PROPERTY-HOLDS') and out['demo_patched'].endswith('PROPERTY-VIOLATED')
                             and out['compiles'] and not out['tests_missing'] and all(f.startswith('pcbasic/') for f in out['files']))
     finally:
